@@ -198,6 +198,21 @@ def _(l):
     return out
 
 
+PAIRS = [("maybe_code", "maybe_type"), ("get_code()", "get_type()"), ("ResolutionKind::Execution", "ResolutionKind::Types"), ("GraphKind::TypesOnly", "GraphKind::CodeOnly"),
+         ("include_types()", "include_code()"), ("CacheSetting::Only", "CacheSetting::Use"), ("CacheSetting::Reload", "CacheSetting::Use"), ("ImportedExports::Star)", "ImportedExports::StarWithDefault)"),
+         ("is_root", "is_asset"), ("Namespaces::type_()", "Namespaces::value()"), ("ReferenceNamespace::Value", "ReferenceNamespace::Type"), (".start", ".end"), ("Resolution::None", "Resolution::Ok"),
+         ("push_back(", "push_front("), ("first()", "last()"), ("ModuleSlot::Err", "ModuleSlot::Module"), ("in_dynamic_branch", "is_dynamic")]
+
+
+@op("pair-swap")
+def _(l):
+    out = []
+    for a, b in PAIRS:
+        out += sub_each(l, r"(?<![\w])" + re.escape(a), b) if a[0].isalpha() else sub_each(l, re.escape(a), b)
+        out += sub_each(l, r"(?<![\w])" + re.escape(b), a) if b[0].isalpha() else sub_each(l, re.escape(b), a)
+    return out
+
+
 @op("continue-break")
 def _(l):
     return sub_each(l, r"\bcontinue;", "break;")
